@@ -21,6 +21,10 @@ NOTES = {
  "C12-seed3": "caught by C12 as it stood (foreign-string / removed-row histories) and by C07 (cells of a removed tail band survive)",
  "C10-seed3": "caught by C10 as it stood (save-emission: a cell whose row the writer does not know)",
  "C17-seed3": "missed by C17 as it stood (exit 0: every case parsed into a fresh object); caught since the `reuse` space (every ordered pair of texts parsed into the SAME Coordinate / Range / Address object, fresh-object twin) was added - the same space found the genuine defect C17-K4 in Range::set_range on the unchanged tree",
+ "C19-seed3": "missed by C19 as it stood (exit 0: the only text carrier was a plain set_value_string cell); caught since the `text` space also shows each text as the cached result of a formula and as the reader leaves both kinds of cell (shared string, t=str with formula)",
+ "C20-seed3": "missed by C20 as it stood (exit 0: every sheet was only filled, never had a cell removed) but caught by C10 (by-column index); C20 catches it since the written-then-removed histories were added",
+ "C15-seed3": "caught by C15 as it stood (salt freshness across the whole run: call n repeats the salt of call n-16)",
+ "C14-seed3": "caught by C14 as it stood (freshness of salts / keys across the run)",
  "C09-seed2": "caught by C09 as it stood (translate clause: a reference leaving the grid followed by another reference) and by C03 (shared-edge family)",
 
  "C11-seed1": "missed by the check as it stood when the seed arrived (exit 0: no operation of the alphabet made a materialised sheet need a NEW numbered dependent part); caught after the edit operation also adds a comment (clause saved-content-equals-eager, the unloaded sheet's comments are replaced)",
